@@ -135,11 +135,11 @@ const M_TYPES: [&str; 30] = [
     "REAL", "GeneralizedTime", "UTCTime", "ANY", "Cyc-A", "Cyc-B", "Undefined-Type", "SEQUENCE OF SEQUENCE { a Cyc-A }",
 ];
 
-const M_VALUES: [&str; 40] = [
+const M_VALUES: [&str; 44] = [
     "5", "-5", "0", "99999999999999999999999999999999999999999", "-170141183460469231731687303715884105729", "TRUE", "FALSE", "NULL", "\"str\"", "\"\"",
     "\"a\"\"b\"", "'0101'B", "'AF'H", "''H", "''B", "'A'H", "'101'B", "{ a }", "{ a, b }", "{ }", "{ 1 2 3 }", "{ iso standard 1 }", "{ a 1, b TRUE }",
     "{ a 1 }", "{ 1, 2 }", "{ { a 1 } }", "a:5", "b:NULL", "a:a:5", "a", "b", "w", "v0", "cyc-a", "1.5", "{ mantissa 1, base 2, exponent 3 }", "PLUS-INFINITY",
-    "MIN", "\"20200101120000Z\"", "undefined-value",
+    "MIN", "\"20200101120000Z\"", "undefined-value", "Mismatch-Mod.w", "Mismatch-Mod.qa", "Mismatch-Mod.cyc-a", "Other-Mod.x",
 ];
 
 const M_CONS: [&str; 34] = [
@@ -154,7 +154,7 @@ const M_CONS: [&str; 34] = [
 fn mismatch_module(src: &mut Src) -> String {
     let mut s = header(src, "Mismatch-Mod");
     s.push('\n');
-    s.push_str("Cyc-A ::= Cyc-B\nCyc-B ::= Cyc-A\nw INTEGER ::= 1\ncyc-a INTEGER ::= cyc-b\ncyc-b INTEGER ::= cyc-a\n");
+    s.push_str("Cyc-A ::= Cyc-B\nCyc-B ::= Cyc-A\nw INTEGER ::= 1\ncyc-a INTEGER ::= cyc-b\ncyc-b INTEGER ::= cyc-a\nqa INTEGER ::= Mismatch-Mod.qb\nqb INTEGER ::= Mismatch-Mod.qa\n");
     let n = 1 + src.pick(8);
     for i in 0..n {
         let ty = M_TYPES[src.pick(M_TYPES.len())];
@@ -479,7 +479,7 @@ pub fn run(tier: Tier, seed: u64, replay: Option<String>) -> i32 {
                 splice) of real-world, generated and exotic-notation modules, modules composed from a library of every notation the lexer parses (classes, objects, \
                 object sets, parameterization, selection, COMPONENTS OF, TIME, REAL, EXTERNAL, MACRO, PATTERN/CONTAINING/WITH COMPONENTS, cyclic aliases / values / \
                 object sets, deep nesting), well-formed modules pairing 30 type notations with 40 value notations and 34 constraints whether they fit or not \
-                (as assignment, via alias, as DEFAULT, as SEQUENCE OF elements; with cyclic aliases and cyclic values in scope), inputs cut inside comments/strings at EOF, multi-byte characters at token boundaries; each is compiled in an isolated worker \
+                (as assignment, via alias, as DEFAULT, as SEQUENCE OF elements; with cyclic aliases and cyclic values, plain and module-qualified, in scope), inputs cut inside comments/strings at EOF, multi-byte characters at token boundaries; each is compiled in an isolated worker \
                 (8 MiB stack) with the rasn backend (default and non-opaque open types) and the TypeScript backend, and every error and warning is rendered with Display \
                 and contextualize; a panic, a dead worker (abort / stack exhaustion) or a confirmed timeout is a violation; non-trivial = the lexer got past the module \
                 header (input contains `BEGIN` followed by at least one `::=`); distinct by input text"
